@@ -717,17 +717,23 @@ class BaseTaskPool:
             `PoolStillUnlocked`: The pool has not been locked yet.
         """
         self.lock()
-        not_cancelled_meta_tasks = (
-            task
-            for task_set in self._group_meta_tasks_running.values()
-            for task in task_set
-        )
+        # The cancelled meta tasks are awaited separately, because the
+        # `CancelledError` of one of them (suppressed here) would otherwise
+        # end the wait for those meta tasks that are still spawning tasks.
         with suppress(CancelledError):
             await gather(
                 *self._meta_tasks_cancelled,
-                *not_cancelled_meta_tasks,
                 return_exceptions=return_exceptions,
             )
+        not_cancelled_meta_tasks = [
+            task
+            for task_set in self._group_meta_tasks_running.values()
+            for task in task_set
+        ]
+        await gather(
+            *not_cancelled_meta_tasks,
+            return_exceptions=return_exceptions,
+        )
         self._meta_tasks_cancelled.clear()
         self._group_meta_tasks_running.clear()
         await gather(
